@@ -102,6 +102,7 @@ pub fn run_script(sh: &mut shell::Shell, args: &Vec<String>) -> i32 {
     }
 
     let mut status = 0;
+    let exit_on_error_outer = sh.exit_on_error;
     let cr_list = run_lines(sh, &text_new, args, false);
     if let Some(last) = cr_list.last() {
         status = last.status;
@@ -110,8 +111,9 @@ pub fn run_script(sh: &mut shell::Shell, args: &Vec<String>) -> i32 {
     // FIXME: We probably need to fix the issue in the `set` builtin,
     // which currently set `exit_on_error` at the shell session level,
     // we should instead set in a script-level.
-    // Here is a work-around ugly fix.
-    sh.exit_on_error = false;
+    // Here is a work-around ugly fix: a `set -e` of this script ends with
+    // it; whoever ran or sourced it gets its own setting back.
+    sh.exit_on_error = exit_on_error_outer;
 
     status
 }
